@@ -2,3 +2,4 @@
 #include "c11_routes.h"
 VH_CONFIG("sparse_d", (c11::small_case<double, c11::FormSparse<double>>));
 VH_CONFIG("sparse_d_big", (c11::big_case<double, c11::FormSparse<double>>));
+VH_CONFIG("sparse_d_huge", (c11::huge_case<double>));
